@@ -418,6 +418,8 @@ func dumpList(lc *list_j5pb.FieldConstraint) string {
 		return one("LAny", t.Any)
 	case *list_j5pb.FieldConstraint_Enum:
 		return one("LEnum", t.Enum)
+	case *list_j5pb.FieldConstraint_Oneof:
+		return one("LOneof", t.Oneof)
 	case *list_j5pb.FieldConstraint_String_:
 		s := "LSNone"
 		switch w := t.String_.WellKnown.(type) {
@@ -496,7 +498,7 @@ func dumpPsmKey(k *ext_j5pb.PSMKeyFieldOptions) string {
 	if k == nil {
 		return "None"
 	}
-	return some(fmt.Sprintf("(PsmKey %s %s)", boolT(k.PrimaryKey), optTok(k.ForeignKey)))
+	return some(fmt.Sprintf("(PsmKey %s %s %s)", boolT(k.PrimaryKey), optTok(k.ForeignKey), optStr(k.TenantType)))
 }
 
 func fieldOpts(fd protoreflect.FieldDescriptor, keySrc protoreflect.FieldDescriptor) string {
@@ -803,14 +805,14 @@ func sprotoTerm(f *schema_j5pb.Field) (string, error) {
 		}
 		entity := "None"
 		if t.Key.Entity != nil {
+			ek := "EKNone"
 			switch e := t.Key.Entity.Type.(type) {
-			case nil:
-				entity = some("EKNone")
 			case *schema_j5pb.EntityKey_PrimaryKey:
-				entity = some("EKPrimary")
+				ek = "EKPrimary"
 			case *schema_j5pb.EntityKey_ForeignKey:
-				entity = some("(EKForeign " + Tok(e.ForeignKey) + ")")
+				ek = "(EKForeign " + Tok(e.ForeignKey) + ")"
 			}
+			entity = some("(EntityK " + ek + " " + optStr(t.Key.Entity.TenantKey) + ")")
 		}
 		return fmt.Sprintf("(PKey %s %s %s)", format, entity, optTok(t.Key.ListRules)), nil
 	case *schema_j5pb.Field_Timestamp:
